@@ -2,9 +2,13 @@
 # prints the sub-agent prompt for one property (only the property text + its scratch worktree)
 import json,sys
 pid=sys.argv[1]
+mode=sys.argv[2] if len(sys.argv)>2 else ''
 for l in open('/verif/properties.jsonl'):
     p=json.loads(l)
     if p['id']==pid: break
+extra = ""
+if mode == "boundary":
+    extra = """  5b. HARD TO SEE FOR A PER-FUNCTION CODE REVIEW: the library is also checked by a tool that verifies each function against a written contract, treating the third-party libraries it calls (fxamacker/cbor, go-cose, veraison/eat, encoding/json, reflect, regexp, crypto) as black boxes with assumed behaviour. Prefer changes whose effect arises OUTSIDE the changed function's own logic: a different but plausible argument, option, mode, type or receiver handed to a library call; a struct tag, constant, regular expression, table or initialisation order; a value that aliases or is shared through an interface; behaviour that only shows through reflection or through the interplay of two files. Avoid plain off-by-one / wrong-operator edits in arithmetic or comparisons (those were collected in earlier rounds)."""
 print(f"""You are testing how robust a Go library's guarantees are against subtle regressions.
 
 Library: veraison/psatoken (Go library for PSA attestation tokens: profile-specific claim sets with validation, CBOR/JSON encoding, COSE_Sign1 signing and verification).
@@ -31,6 +35,7 @@ TASK: produce TWO different, independent changes ("a" and "b") to the library's 
   4. is REALISTIC: looks like something a maintainer could plausibly write in a refactor, optimisation, feature addition or bug-fix gone wrong -- not sabotage, no dead code, no magic constants keyed on a test input,
   5. is SUBTLE: it must need something specific to manifest -- an unusual input or boundary value, a particular multi-step sequence of operations, a fault at a particular point, a particular map iteration order / interleaving, or two cooperating sites that each look fine alone. A change that ordinary use of the library would expose at once is NOT wanted.
 Make the two changes different in kind and in location (different functions, preferably different files / different clauses of the property).
+{extra}
   6. MINIMAL IN SHAPE: confine each change to EXISTING statements of existing functions -- a condition, a constant, an operator, the order of two statements, which variable or field is used, what is returned or assigned, a struct tag, an option value. Do NOT add new functions or methods, new struct fields, new package-level variables or new imports, and do not call library functions that the edited function does not already call. (Changes of that kind were collected in an earlier round; this round is about edits that hide inside code that already exists.)
 
 For each change X in {{a,b}} deliver, under /tmp/seedout/{pid}/X/:
